@@ -6,12 +6,21 @@
    component of X; and SOUNDNESS of the curve-in-shape test for polygons in general position
    (C03_curve_in_shape_sound) and its COMPLETENESS (C03_curve_in_shape_complete): in general
    position `J in A` decides "every point of J is a point of A" (C03_curve_in_shape_iff).
-   NOT proved (partial): that the area/orientation case analysis of simple-in-simple on top of
-   it decides subset of REGIONS (that needs the Jordan curve theorem for polygons) -- oracle on
-   every run (exact subset decision by slab sampling).
+   REGION level, for two strictly convex counter-clockwise polygons (Lemmas/SubsetConvex.v, on
+   top of Lemmas/Convex.v): the regions are the half-plane intersections (C03_convex_region_closed, _open, _out),
+   `B in A` = True implies closed B inside closed A and open B inside open A
+   (C03_convex_in_sound, hypothesis: the tolerance test is exact at the vertices of B -- decidable);
+   `B in A` = False implies a boundary point of B outside A (C03_convex_in_false), and
+   `B in A` = True IFF closed B is inside closed A (C03_convex_in_iff) under two decidable
+   hypotheses: tolerance exactness at the finitely many tested points, and area A >= area B
+   (only the library's "B has more area than A" short-cut needs it: monotonicity of the area under
+   inclusion is proved when B is a triangle -- C03_convex_in_iff_triangle has no area hypothesis).
+   NOT proved (partial): the same for non-convex simple polygons and for holes (that needs the
+   Jordan curve theorem for polygons) -- oracle on every run (exact subset decision by slab
+   sampling).
    Two defects in exactly that part were found and repaired (known_findings.json: F10, F11). *)
 From Coq Require Import List.
-From SV Require Import Spec.Spec Lemmas.Logic Lemmas.Lines Lemmas.Subset Lemmas.SubsetComplete.
+From SV Require Import Spec.Spec Lemmas.Logic Lemmas.Lines Lemmas.Subset Lemmas.SubsetComplete Lemmas.Convex Lemmas.SubsetConvex.
 Open Scope Q_scope.
 
 Theorem C03_whole_contains_all : forall b, contains_shape SWhole b = Ok true.
@@ -111,6 +120,69 @@ Theorem C03_contains_curve_sound : forall S j b,
   forall p, curve_pt j p -> region S p = RIn \/ region S p = RBdry.
 Proof. exact contains_jordan_sound. Qed.
 Print Assumptions C03_contains_curve_sound.
+
+(* ---- region level, strictly convex counter-clockwise polygons ---- *)
+(* the region of the specification is the intersection of the half-planes of the edges *)
+Theorem C03_convex_region_closed : forall vs p, convex_ccw_b vs = true ->
+  (in_closed (poly_of vs) p <-> forall e, In e (edges_of vs) -> 0 <= orient (fst e) (snd e) p).
+Proof. exact convex_closed_iff. Qed.
+Theorem C03_convex_region_open : forall vs p, convex_ccw_b vs = true ->
+  (region_simple (poly_of vs) p = RIn <-> forall e, In e (edges_of vs) -> 0 < orient (fst e) (snd e) p).
+Proof. exact convex_open_iff. Qed.
+Theorem C03_convex_region_out : forall vs p, convex_ccw_b vs = true ->
+  (region_simple (poly_of vs) p = ROut <-> exists e, In e (edges_of vs) /\ orient (fst e) (snd e) p < 0).
+Proof. exact convex_out_iff. Qed.
+(* `B in A` always returns *)
+Theorem C03_convex_in_total : forall va vb, convex_ccw_b va = true -> convex_ccw_b vb = true ->
+  exists r, simple_has_simple (poly_of va) (poly_of vb) = Ok r.
+Proof. exact convex_in_total. Qed.
+(* True is right: every point of closed B is a point of closed A, every interior point an interior point *)
+Theorem C03_convex_in_sound : forall va vb, convex_ccw_b va = true -> convex_ccw_b vb = true ->
+  (forall w, In w vb -> tol_exact (poly_of va) w) ->
+  simple_has_simple (poly_of va) (poly_of vb) = Ok true ->
+  forall p, (in_closed (poly_of vb) p -> in_closed (poly_of va) p) /\
+            (region_simple (poly_of vb) p = RIn -> region_simple (poly_of va) p = RIn).
+Proof.
+  intros va vb Ca Cb T H p. split;
+    [exact (convex_in_sound va vb Ca Cb T H p) | exact (convex_in_sound_open va vb Ca Cb T H p)].
+Qed.
+(* False is right: some boundary point of B is outside A *)
+Theorem C03_convex_in_false : forall va vb, convex_ccw_b va = true -> convex_ccw_b vb = true ->
+  tol_tested (poly_of va) (poly_of vb) ->
+  Qlt_bool (jordan_area (poly_of va)) (jordan_area (poly_of vb)) = false ->
+  simple_has_simple (poly_of va) (poly_of vb) = Ok false ->
+  exists p, on_boundary (poly_of vb) p = true /\ region_simple (poly_of va) p = ROut.
+Proof. exact convex_in_false. Qed.
+(* hence `B in A` DECIDES the subset relation of the regions *)
+Theorem C03_convex_in_iff : forall va vb, convex_ccw_b va = true -> convex_ccw_b vb = true ->
+  tol_tested (poly_of va) (poly_of vb) ->
+  Qlt_bool (jordan_area (poly_of va)) (jordan_area (poly_of vb)) = false ->
+  (simple_has_simple (poly_of va) (poly_of vb) = Ok true <->
+   forall p, in_closed (poly_of vb) p -> in_closed (poly_of va) p).
+Proof. exact convex_in_iff_area. Qed.
+Theorem C03_convex_in_iff_triangle : forall va a b c, convex_ccw_b va = true ->
+  convex_ccw_b [a; b; c] = true -> tol_tested (poly_of va) (poly_of [a; b; c]) ->
+  (simple_has_simple (poly_of va) (poly_of [a; b; c]) = Ok true <->
+   forall p, in_closed (poly_of [a; b; c]) p -> in_closed (poly_of va) p).
+Proof. exact convex_in_iff_triangle. Qed.
+(* the tolerance hypothesis is a boolean *)
+Theorem C03_tol_tested_decidable : forall self j, tol_tested_b self j = true -> tol_tested self j.
+Proof. exact tol_tested_b_ok. Qed.
+Print Assumptions C03_convex_in_sound.
+Print Assumptions C03_convex_in_false.
+Print Assumptions C03_convex_in_iff.
+Print Assumptions C03_convex_in_iff_triangle.
+(* non-vacuity: a triangle inside a pentagon (all hypotheses by evaluation, answer True), and a
+   triangle that sticks out of it (answer False, witness vertex outside) *)
+Example C03_convex_nonvacuous :
+  convex_ccw_b ex_pentagon = true /\ convex_ccw_b ex_in = true /\
+  tol_tested_b (poly_of ex_pentagon) (poly_of ex_in) = true /\
+  Qlt_bool (jordan_area (poly_of ex_pentagon)) (jordan_area (poly_of ex_in)) = false /\
+  simple_has_simple (poly_of ex_pentagon) (poly_of ex_in) = Ok true.
+Proof. exact ex_in_hyps. Qed.
+Example C03_convex_nonvacuous_false :
+  exists p, on_boundary (poly_of ex_cross) p = true /\ region_simple (poly_of ex_pentagon) p = ROut.
+Proof. exact ex_cross_witness. Qed.
 
 (* the witnesses of the two repaired defects now answer correctly in the model *)
 Example C03_nonvacuous_F11 :
